@@ -7,8 +7,11 @@ Lemma sock_send_some cur sc k sc' :
   1 <= k <= length cur /\ sintrs sc' = sintrs sc.
 Proof.
   intros Hc H. assert (1 <= length cur) by (destruct cur; [congruence|cbn; lia]).
-  destruct sc as [|[j| |c] r]; unfold sock_send in H; inversion H; subst; clear H.
+  destruct sc as [|[j| |c|j] r]; unfold sock_send in H; inversion H; subst; clear H.
   - split; [lia|reflexivity].
+  - change (match length cur with 0 => 0 | S m' => S (Nat.min j m') end)
+      with (Nat.min (S j) (length cur)).
+    split; [lia|reflexivity].
   - change (match length cur with 0 => 0 | S m' => S (Nat.min j m') end)
       with (Nat.min (S j) (length cur)).
     split; [lia|reflexivity].
@@ -16,28 +19,51 @@ Qed.
 
 Lemma sock_send_intr cur sc e sc' :
   sock_send cur sc = (SIntr e, sc') -> sintrs sc = e :: sintrs sc'.
-Proof. destruct sc as [|[j| |c] r]; cbn; intro H; inversion H; subst; reflexivity. Qed.
+Proof. destruct sc as [|[j| |c|j] r]; cbn; intro H; inversion H; subst; reflexivity. Qed.
 
 Lemma sintrs_head sc e l : sintrs sc = e :: l -> is_intr_exn e = true.
 Proof.
-  induction sc as [|[j| |c] r IH]; cbn; intro H; try discriminate; auto; inversion H; reflexivity.
+  induction sc as [|[j| |c|j] r IH]; cbn; intro H; try discriminate; auto; inversion H; reflexivity.
 Qed.
 
-Lemma send_loop_ok : forall fuel cur total sc w r cur' sc' w',
+(* interrupted by the sending network, or by the call's own deadline *)
+Definition sintr_by (d_on : bool) (e : exn) (sc sc' : list sev) : Prop :=
+  sintrs sc = e :: sintrs sc' \/ (e = Timeout /\ sintrs sc' = sintrs sc /\ d_on = true).
+
+Lemma sintr_by_is_intr d_on e sc sc' : sintr_by d_on e sc sc' -> is_intr_exn e = true.
+Proof. intros [H|(-> & _)]; [exact (sintrs_head _ _ _ H)|reflexivity]. Qed.
+
+Lemma sintr_by_explain d_on e sc sc' :
+  sintr_by d_on e sc sc' ->
+  explain_intr d_on (OExn e) (sintrs sc) (length (sintrs sc')) = Some (sintrs sc').
+Proof.
+  intros [H|(-> & H & ->)]; unfold explain_intr.
+  - rewrite H. cbn [length]. rewrite Nat.eqb_refl. cbn [next_intr].
+    assert (E : exn_eqb e e = true) by (destruct e; cbn; auto using Nat.eqb_refl). rewrite E. reflexivity.
+  - rewrite H. assert (E : Nat.eqb (S (length (sintrs sc))) (length (sintrs sc)) = false)
+      by (apply Nat.eqb_neq; lia).
+    rewrite E, Nat.eqb_refl. reflexivity.
+Qed.
+
+Lemma send_loop_ok d_on : forall fuel late cur total sc w r cur' sc' w',
   length cur < fuel ->
-  send_loop fuel cur total sc w = (r, cur', sc', w') ->
+  send_loop fuel d_on late cur total sc w = (r, cur', sc', w') ->
   exists sent, cur = sent ++ cur' /\ w' = w ++ sent /\
     match r with
     | inl t => cur' = [] /\ t = total + length sent /\ sintrs sc' = sintrs sc
-    | inr e => sintrs sc = e :: sintrs sc'
+    | inr e => sintr_by d_on e sc sc'
     end.
 Proof.
-  induction fuel as [|f IH]; intros cur total sc w r cur' sc' w' F H; [lia|].
+  induction fuel as [|f IH]; intros late cur total sc w r cur' sc' w' F H; [lia|].
   cbn [send_loop] in H. destruct cur as [|x cur].
   - inversion H; subst. exists []. cbn. rewrite app_nil_r. repeat split; lia.
   - remember (x :: cur) as c eqn:Ec.
     destruct (sock_send c sc) as [[k|e] sc1] eqn:Es.
     + apply sock_send_some in Es as [Hk Hst]; [|subst; congruence].
+      destruct (d_on && (late || sslow_head sc)) eqn:Edl.
+      { (* the deadline check after this partial send fires *)
+        apply andb_true_iff in Edl as [-> _]. inversion H; subst. exists (firstn k (x :: cur)).
+        split; [symmetry; apply firstn_skipn|]. split; [reflexivity|]. right. auto. }
       apply IH in H; [|rewrite skipn_length; lia].
       destruct H as (sent & H1 & H2 & H3). exists (firstn k c ++ sent). split; [|split].
       * rewrite <- app_assoc, <- H1. symmetry. apply firstn_skipn.
@@ -45,8 +71,9 @@ Proof.
       * destruct r as [t|e].
         -- destruct H3 as (H3 & H4 & H5). repeat split; auto; try congruence.
            rewrite app_length, firstn_length_le by lia. lia.
-        -- congruence.
-    + inversion H; subst. apply sock_send_intr in Es. exists []. cbn. rewrite app_nil_r. auto.
+        -- destruct H3 as [H3|(H3 & H4 & H5)]; [left; congruence|right; repeat split; auto; congruence].
+    + inversion H; subst. apply sock_send_intr in Es. exists []. cbn. rewrite app_nil_r. split; [reflexivity|].
+      split; [reflexivity|]. left. assumption.
 Qed.
 
 Lemma concat_filter_nonempty (l : list bytes) :
@@ -66,7 +93,7 @@ Proof.
 Qed.
 
 Definition same_recv (s s' : bs) : Prop :=
-  rbuf s' = rbuf s /\ nt s' = nt s /\ maxsize s' = maxsize s /\ recvsize s' = recvsize s.
+  rbuf s' = rbuf s /\ nt s' = nt s /\ maxsize s' = maxsize s /\ recvsize s' = recvsize s /\ dl s' = dl s.
 
 Definition op_data (o : op) : bytes :=
   match o with Send d | Buffer d => d | _ => [] end.
@@ -81,7 +108,7 @@ Definition send_post (s : bs) (o : op) (out : outcome) (s' : bs) : Prop :=
                         sintrs (script s') = sintrs (script s)
     | Flush, ONone => concat (sbuf s') = [] /\ sintrs (script s') = sintrs (script s)
     (* interrupted after 0 or more bytes went out: by a time-out or by any other socket error *)
-    | Send _, OExn e | Flush, OExn e => sintrs (script s) = e :: sintrs (script s')
+    | Send _, OExn e | Flush, OExn e => sintr_by (dl s) e (script s) (script s')
     | _, _ => False
     end.
 
@@ -93,16 +120,16 @@ Lemma send_gen s data out s' :
     match out with
     | ONat n => concat (sbuf s') = [] /\ n = length sent /\
                 sintrs (script s') = sintrs (script s)
-    | OExn e => sintrs (script s) = e :: sintrs (script s')
+    | OExn e => sintr_by (dl s) e (script s) (script s')
     | _ => False
     end.
 Proof.
   unfold send. intro H. rewrite sbuf_head_join in H.
   set (cur := concat (sbuf s) ++ data) in *. assert (Hcur : cur = concat (sbuf s) ++ data) by reflexivity.
   clearbody cur.
-  destruct (send_loop (S (length cur)) cur 0 (script s) (wire s)) as [[[r cur'] sc'] w'] eqn:E.
+  destruct (send_loop (S (length cur)) (dl s) false cur 0 (script s) (wire s)) as [[[r cur'] sc'] w'] eqn:E.
   apply send_loop_ok in E; [|lia]. destruct E as (sent & H1 & H2 & H3).
-  destruct r as [t|e]; inversion H; subst out s'; clear H; cbn [rbuf nt maxsize recvsize sbuf script wire set_send];
+  destruct r as [t|e]; inversion H; subst out s'; clear H; cbn [rbuf nt maxsize recvsize sbuf script wire dl set_send];
     (split; [repeat split|]); exists sent; (split; [assumption|]); cbn [concat]; rewrite app_nil_r.
   - destruct H3 as (H3 & H4 & H5). subst cur'. rewrite app_nil_r in H1. split; [|auto].
     rewrite H2, app_nil_r, <- app_assoc, <- Hcur, H1. reflexivity.
@@ -116,7 +143,7 @@ Proof.
   - apply send_gen in H. destruct H as (SR & sent & H1 & H2 & H3). split; [assumption|].
     exists sent. repeat (split; [assumption|]).
     destruct out; try contradiction; assumption.
-  - unfold buffer in H. inversion H; subst; clear H. cbn [rbuf nt maxsize recvsize sbuf script wire set_send].
+  - unfold buffer in H. inversion H; subst; clear H. cbn [rbuf nt maxsize recvsize sbuf script wire dl set_send].
     split; [repeat split|]. exists []. rewrite app_nil_r. split; [reflexivity|].
     rewrite concat_app. cbn. rewrite app_nil_r, app_assoc. auto.
   - unfold flush in H. destruct (send s []) as [o1 s1] eqn:E. apply send_gen in E.
